@@ -174,6 +174,11 @@ class ClientAuthenticator:
                 self.sendAuthMessage(
                     b'ERROR ' + str(e).encode('unicode-escape'))
 
+        else:
+            # The mechanism has no use for a challenge (ANONYMOUS): say so
+            # rather than leaving both sides waiting for each other.
+            self.sendAuthMessage(b'ERROR "Unexpected challenge"')
+
     def _auth_ERROR(self, line):
         if self.negotiatingUnixFD:
             # The server accepted us but does not pass file descriptors
